@@ -1,8 +1,8 @@
 package props
 
 import (
-	"compress/gzip"
 	"bytes"
+	"compress/gzip"
 	"fmt"
 	"net/http"
 	"net/http/httptest"
